@@ -19,18 +19,17 @@ def main():
     quick = chk.tier == "quick"
     toks = pegrun.tokens(chk.tier)
     wd = vlib.sub("c11")
-    trees, rows = pegrun.rendered_seeds(rnd, 40 if quick else 400, 3, wd)
+    trees, rows = pegrun.rendered_seeds(rnd, 40 if quick else 160, 3, wd)
     seeds = []
     for r in rows:
         s = pegrun.syms(r["text"])
-        if s is not None and 0 < r["steps"] <= (3000 if quick else 20000):
+        if s is not None and 0 < r["steps"] <= (3000 if quick else 8000):
             seeds.append(s)
             seeds.append(pegrun.mutate(rnd, s))
     seeds += [pegrun.syms(t) for t in ["foo == 3 x", "(a == 1) and b == 2", "a == 1 )", "(a == 1", "a == 1 and", "a", "", "((a == 1))", "not not a == 1"]]
-    seeds = pegrun.cheap(seeds, 3000 if quick else 20000, wd)
-    if quick:
-        rnd.shuffle(seeds)
-        seeds = seeds[:160]
+    seeds = pegrun.cheap(seeds, 3000 if quick else 8000, wd)
+    rnd.shuffle(seeds)
+    seeds = seeds[:(160 if quick else 420)]
     world = pegrun.peg_world(toks, 1 if quick else 2, 1, seeds, budgets=True, checked=True)
     res = pegrun.run_peg(chk, "c11", world, shapes=False)
     # long inputs that fail early (few steps, many bytes), deep but linear nesting (many steps, no exponential blow-up): these are
